@@ -31,6 +31,7 @@ type params struct {
 	Faults bool  // alphabet includes write/read faults (drop is always there)
 	Ooo    bool  // acknowledgements may be sent out of order
 	Bystander bool // a second, online subscriber holds a QoS 0 subscription to the same topic
+	Real   bool // the broker writes / reads through the real transport.BaseConn (buffered writer, flush timer) over the pipe
 }
 
 func init() {
@@ -323,6 +324,7 @@ func history(x *explore.X, pr params) {
 		m.ClientInflightMessages = pr.Window
 		m.SessionQueueSize = 16
 	})
+	s.w.Real = pr.Real
 	s.helper = s.w.NewClient("h")
 	s.helper.Connect(true, nil)
 	var by *env.Client
@@ -543,7 +545,7 @@ func (s *st) fingerprint() string {
 func part(r *report.Report, name string, p params, bound int) {
 	js, _ := json.Marshal(p)
 	st := explore.Explore(explore.Config{Harness: "subhist", Params: string(js), Bound: bound, Workers: report.Workers(), Deadline: r.Deadline()})
-	r.AddExploration(name, "history", fmt.Sprintf("all histories of depth %d (window %d, publish qos %v, clean connects %v, write/read faults %v, out-of-order acks %v, QoS 0 bystander %v), delay bound %d, each followed by a reconnect-and-acknowledge-everything epilogue", p.Depth, p.Window, p.QOS, p.Clean, p.Faults, p.Ooo, p.Bystander, bound), st,
+	r.AddExploration(name, "history", fmt.Sprintf("all histories of depth %d (window %d, publish qos %v, clean connects %v, write/read faults %v, out-of-order acks %v, QoS 0 bystander %v, over transport.BaseConn %v), delay bound %d, each followed by a reconnect-and-acknowledge-everything epilogue", p.Depth, p.Window, p.QOS, p.Clean, p.Faults, p.Ooo, p.Bystander, p.Real, bound), st,
 		"one execution = one history of publisher/subscriber/fault events; instant clauses at every broker write, store/token clauses at every quiescence, loss/progress clause after the epilogue; non-trivial = fault, acknowledgement and retransmission events (counted)",
 		"fault", "ack", "retransmission")
 }
@@ -562,7 +564,10 @@ func runC08(r *report.Report) {
 		part(r, "w2-all-faults", params{Prop: "C08", Depth: 6, Window: 2, QOS: []int{0, 1, 2}, Faults: true, Ooo: true}, 0)
 		part(r, "w2-reordered", params{Prop: "C08", Depth: 4, Window: 2, QOS: []int{1, 2}, Faults: true}, 1)
 		part(r, "w1-bystander", params{Prop: "C08", Depth: 5, Window: 1, QOS: []int{1, 2}, Bystander: true}, 0)
+		part(r, "w2-drops-over-baseconn", params{Prop: "C08", Depth: 6, Window: 2, QOS: []int{1, 2}, Clean: true, Ooo: true, Real: true}, 0)
 	} else {
+		part(r, "w2-drops-over-baseconn", params{Prop: "C08", Depth: 7, Window: 2, QOS: []int{1, 2}, Clean: true, Ooo: true, Real: true}, 0)
+		part(r, "w1-drops-over-baseconn-reordered", params{Prop: "C08", Depth: 4, Window: 1, QOS: []int{1, 2}, Real: true}, 1)
 		part(r, "w2-bystander", params{Prop: "C08", Depth: 7, Window: 2, QOS: []int{0, 1, 2}, Bystander: true, Faults: true}, 0)
 		part(r, "w1-all-faults", params{Prop: "C08", Depth: 8, Window: 1, QOS: []int{0, 1, 2}, Clean: true, Faults: true}, 0)
 		part(r, "w2-all-faults", params{Prop: "C08", Depth: 8, Window: 2, QOS: []int{0, 1, 2}, Clean: true, Faults: true, Ooo: true}, 0)
